@@ -210,3 +210,43 @@ func TestEnumAdjacency(t *testing.T) {
 	}
 	st.SetExhaustive(fmt.Sprintf("all ordered pairs and triples of %d token kinds x 32 option masks x {sequence, array, dict value}", k))
 }
+
+// TestEnumDepth formats and parses values nested up to the scanner's
+// documented limit of 256 containers, for every mix of arrays and
+// dictionaries given by a few bit patterns and both kinds of innermost
+// container.  Through the hook parser (which wraps the case in one array) the
+// limit is 255, through a synthesised file it is 256.
+func TestEnumDepth(t *testing.T) {
+	st := vt.NewStats(property, "enum-depth")
+	patterns := []uint64{0, ^uint64(0), 0xAAAAAAAAAAAAAAAA, 0x5555555555555555, 1, ^uint64(1), 0x8000000000000001}
+	leaves := []gen.O{{T: "int", I: 7}, {T: "arr"}, {T: "dict"}, {T: "str", S: gen.Hex("(")}, {T: "name", S: gen.Hex("N")}}
+	n := 0
+	for depth := 240; depth <= 256; depth++ {
+		for _, pat := range patterns {
+			for _, leaf := range leaves {
+				for _, opt := range []int{0, 1} {
+					d := depth - leaf.Depth()
+					obj := gen.Deep(d, pat, leaf)
+					c := Case{Opt: opt, Objs: []gen.O{obj}, InFile: true, StrictNilDict: true}
+					var err error
+					if depth <= 255 {
+						err = vt.Guard(func() error { return checkCase(&c) })
+					} else {
+						// 256 containers: only the file path stays within the limit
+						err = vt.Guard(func() error { return checkInFile(&c, optFromMask(opt), c.Objs) })
+					}
+					n++
+					st.Eval(vt.HashBytes([]byte{byte(depth), byte(depth >> 8), byte(opt)}, []byte(fmt.Sprint(pat, leaf.T))), true, fmt.Sprintf("depth%d", depth))
+					if n%97 == 0 {
+						st.Sample(func() any { return map[string]any{"depth": depth, "pattern": pat, "leaf": leaf.T, "opt": opt} })
+					}
+					if err != nil {
+						vt.Violation(property, "c01-adjacency", &c, err.Error())
+						t.Fatalf("depth %d pattern %x leaf %s: %v", depth, pat, leaf.T, err)
+					}
+				}
+			}
+		}
+	}
+	st.SetExhaustive("nesting depths 240..256 x 7 array/dict patterns x 5 innermost values x {plain, pretty}")
+}
